@@ -358,6 +358,23 @@ pub fn gen(args: &Args, out: &mut dyn Write) {
         emit(out, s, "parse_obj");
         emit(out, s, "read_obj");
     }
+    // every byte value as the whole input, as the only content of a line (bare, between blanks, inside an
+    // otherwise valid file, doubled), glued to the front of a statement and as a separator inside one: whatever
+    // a byte counts as (blank, comment, keyword, junk) - under any notion of white space - parsing stays total
+    for b in 0..=255u8 {
+        let ctx: [Vec<u8>; 7] = [
+            vec![b],
+            vec![b' ', b' ', b, b' ', b, b'\t'],
+            [&b"v 0 0 0\nv 1 0 0\nv 0 1 0\n "[..], &[b, b'\r'], &b"\nf 1 2 3\n"[..]].concat(),
+            vec![b, b, b'\n', b],
+            [&[b][..], &b"v 1 2 3\nf 1 1 1"[..]].concat(),
+            [&b"v 1"[..], &[b], &b"2 3\nf 1 1 1"[..]].concat(),
+            [&b"v 1 2 3\nf 1 1 1"[..], &[b], &b"\n"[..], &[b], &b"#"[..]].concat(),
+        ];
+        for (j, c) in ctx.iter().enumerate() {
+            emit(out, c, if (b as usize + j) % 2 == 0 { "parse_obj" } else { "read_obj" });
+        }
+    }
     for i in 0..n {
         let f = wellformed(&mut rng, i % 41 == 7);
         match i % 4 {
